@@ -103,7 +103,11 @@ where
 {
     let (signatures_key, mut signature_map) = match object.remove_entry("signatures") {
         Some((key, CanonicalJsonValue::Object(signatures))) => (Cow::Owned(key), signatures),
-        Some(_) => return Err(JsonError::not_of_type("signatures", JsonType::Object)),
+        Some((key, value)) => {
+            // Leave the object as it was.
+            object.insert(key, value);
+            return Err(JsonError::not_of_type("signatures", JsonType::Object));
+        }
         None => (Cow::Borrowed("signatures"), BTreeMap::new()),
     };
 
@@ -122,7 +126,16 @@ where
 
     let signature_set = match signature_set {
         CanonicalJsonValue::Object(obj) => obj,
-        _ => return Err(JsonError::not_multiples_of_type("signatures", JsonType::Object)),
+        _ => {
+            // Leave the object as it was.
+            if matches!(signatures_key, Cow::Owned(_)) {
+                object.insert(signatures_key.into(), CanonicalJsonValue::Object(signature_map));
+            }
+            if let Some((k, v)) = maybe_unsigned_entry {
+                object.insert(k, v);
+            }
+            return Err(JsonError::not_multiples_of_type("signatures", JsonType::Object));
+        }
     };
 
     signature_set.insert(signature.id(), CanonicalJsonValue::String(signature.base64()));
